@@ -6,7 +6,7 @@
    expiry).  The library oracles are tables recorded by the harness; float
    arithmetic and comparisons are Coq's primitive floats.
    CAccept: record of tie (4) (decided by the harness oracle). *)
-From V Require Export Lang.RefSem Lang.Codegen Lang.Wt Lang.Expand Metrics.FloatBits.
+From V Require Export Lang.RefSem Lang.Codegen Lang.Wt Lang.Expand Lang.CapType Metrics.FloatBits.
 Local Open Scope Z_scope.
 
 Record tables := mktables {
@@ -102,10 +102,23 @@ Inductive c01case :=
 | CSurf (id : N) (sp : sprog) (file : bytes) (lines : list bytes) (tb : tables)
         (errs : list bool) (final : obs)
         (code : list instr) (strs res : list bytes) (mets : list (mkind * mtype * nat))
+        (caps : list (re * ty * ty))
+    (* caps: every capture group of the program: its tree as mtail parses it, the
+       type the reference's Go decision procedure gives it, the type the real
+       checker gave it *)
     (* the SURFACE program (decorators not inlined): Lang/Expand.v inlines and
        numbers it; then both ties on the result: reference semantics vs the
        observed run, model code generator vs the real object code *)
+| CCapTy (id : N) (caps : list (re * ty * ty))
+    (* typing probes and flagged streams: capture groups only *)
 | CAccept (id : N) (accepted : bool).
+
+(* the faithful model of types.InferCaprefType gives the checker's type; the
+   verified decision procedure gives the reference's type *)
+Definition caps_ok (caps : list (re * ty * ty)) : bool :=
+  forallb (fun x => match x with
+                    | (r, spec, impl) => ty_eqb (cap_spec r) spec && ty_eqb (infer_top r) impl
+                    end) caps.
 
 Definition operand_eqb (a b : operand) : bool :=
   match a, b with
@@ -132,7 +145,8 @@ Fixpoint list_eqb2 {A B} (f : A -> B -> bool) (a : list A) (b : list B) : bool :
   end.
 
 Definition case_id (c : c01case) : N :=
-  match c with CRef i _ _ _ _ _ _ => i | CGen i _ _ _ _ _ => i | CSurf i _ _ _ _ _ _ _ _ _ _ => i | CAccept i _ => i end.
+  match c with CRef i _ _ _ _ _ _ => i | CGen i _ _ _ _ _ => i | CSurf i _ _ _ _ _ _ _ _ _ _ _ => i
+  | CCapTy i _ => i | CAccept i _ => i end.
 
 Definition case_ok (c : c01case) : bool :=
   match c with
@@ -145,20 +159,33 @@ Definition case_ok (c : c01case) : bool :=
       let o := codegen p in
       list_eqb instr_eqb (o_prog o) code && list_eqb bytes_eqb (o_strs o) strs
       && list_eqb bytes_eqb (p_res p) res && list_eqb2 met_eqb (o_metrics o) mets
-  | CSurf _ sp file lines tb errs final code strs res mets =>
+  | CSurf _ sp file lines tb errs final code strs res mets caps =>
       match expand sp with
       | Some p =>
           let (st, outs) := ref_lines (mk_env tb) p file lines (init_rstore p) in
           let o := codegen p in
-          wt p && list_eqb Bool.eqb (map is_err outs) errs && obs_eqb (p_decls p) st final
+          caps_ok caps && wt p && list_eqb Bool.eqb (map is_err outs) errs && obs_eqb (p_decls p) st final
           && list_eqb instr_eqb (o_prog o) code && list_eqb bytes_eqb (o_strs o) strs
           && list_eqb bytes_eqb (p_res p) res && list_eqb2 met_eqb (o_metrics o) mets
       | None => false
       end
+  | CCapTy _ caps => caps_ok caps
   | CAccept _ _ => true
   end.
 
 Definition mismatches (l : list c01case) : list N := failing case_ok case_id l.
+
+(* for debugging a disagreement in the capture typing *)
+Definition explain_caps (c : c01case) :=
+  let bad := filter (fun x => match x with
+                              | (r, spec, impl) => negb (ty_eqb (cap_spec r) spec && ty_eqb (infer_top r) impl)
+                              end) in
+  let show := map (fun x => match x with (r, spec, impl) => (r, (cap_spec r, spec), (infer_top r, impl)) end) in
+  match c with
+  | CSurf _ _ _ _ _ _ _ _ _ _ _ caps => show (bad caps)
+  | CCapTy _ caps => show (bad caps)
+  | _ => []
+  end.
 
 (* for debugging a disagreement: what the reference computes *)
 Definition explain (c : c01case) :=
@@ -169,7 +196,7 @@ Definition explain (c : c01case) :=
 Definition in_frag (c : c01case) : bool :=
   match c with
   | CRef _ p _ _ _ _ _ => wt p && in_fragment p && scoped_otherwise p
-  | CSurf _ sp _ _ _ _ _ _ _ _ _ =>
+  | CSurf _ sp _ _ _ _ _ _ _ _ _ _ =>
       match expand sp with Some p => wt p && in_fragment p && scoped_otherwise p | None => false end
   | _ => false
   end.
